@@ -352,6 +352,17 @@ def exTryCont : Prog :=
 /-- `[7, 8]` -/
 def exInput2 : V := .arr [.num (.int 7), .num (.int 8)]
 
+/-- `reduce .[] as $x (0; [., $x])` : the state is threaded through the elements -/
+def exReduce : Prog :=
+  { defs := [], main := .reduce 0 .iter (.const (.num (.int 0))) (.arr (.comma .id (.var 0))) }
+/-- `reduce .[] as $x (0; empty)` : an empty update keeps the state -/
+def exReduceEmpty : Prog :=
+  { defs := [], main := .reduce 0 .iter (.const (.num (.int 0))) .empty }
+/-- `foreach .[] as $x (0; $x, [.]; [$x, .])` : every output of the update becomes the state and is
+    extracted; the next element sees the LAST one -/
+def exForeach : Prog :=
+  { defs := [], main := .foreach 0 .iter (.const (.num (.int 0))) (.comma (.var 0) (.arr .id)) (.arr (.comma (.var 0) .id)) }
+
 /-- a message function for evaluating examples -/
 def exMsg : IterMsg := ⟨fun _ => .str [], fun _ _ => some .null, fun _ _ => .null⟩
 
